@@ -3,6 +3,7 @@ import Logrange.Proofs.DateRoundTrip
 import Logrange.Proofs.DateLineParser
 import Logrange.Proofs.DateLineSkip
 import Logrange.Proofs.DateFloat
+import Logrange.Proofs.DatePad
 import Logrange.Generated.C20
 import Logrange.Props.C20Formats
 import Logrange.Props.C20Findings
@@ -412,6 +413,46 @@ def C20_full : Prop :=
 /-- **C20, text alone, holds for all 59 + 68 formats and every valid instant.** Tested only (differential sweeps): texts with
 surrounding text (log-line prefix), and that the model is the code. -/
 theorem C20_full_holds : C20_full := ⟨C20_collector, C20_lql⟩
+
+/-! ## LQL literals with surrounding text: blanks -/
+
+theorem lql_trims_blanks : gcfg.trim = true := by decide
+
+/-- **C20 for LQL literals with surrounding blanks** (the only surrounding text `parseLqlDateTime` admits: it trims blanks): the
+text of any valid instant in any format of the LQL list, padded with any number of blanks on either side, denotes the fields the
+format carries -/
+theorem C20_lql_padded (k : Nat) (hk : k < lqlFmts.length) (i : XInst) (hi : ValidX i) (now : Now) (a b : Nat) :
+    ∃ ck txt c j', lqlFmts[k]? = some ck ∧ renderLayout ck.layout i = some txt ∧ projectX ck.layout i = .ok c ∧ j' ≤ k ∧
+      parseLql gcfg lqlFmts now (List.replicate a 32 ++ txt ++ List.replicate b 32) = .abs j' (adjAll gadj ck now c) := by
+  obtain ⟨ck, txt, c, j', hck, ht, hc, hj, hp⟩ := C20_lql k hk i hi now
+  have hck' : ck = lqlFmts[k] := by
+    rw [List.getElem?_eq_getElem hk] at hck; exact (Option.some.inj hck).symm
+  subst hck'
+  have hside := List.all_eq_true.mp lql_formats_own_ok _ (List.getElem_mem hk)
+  simp only [Bool.and_eq_true] at hside
+  obtain ⟨sh, hsh, hs⟩ := renderLayout_shape lqlFmts[k].layout i hi txt ht
+  have hok := List.all_eq_true.mp hside.2 sh hsh
+  simp only [lqlShapeOK, Bool.and_eq_true] at hok
+  obtain ⟨⟨hhead, hlast⟩, _⟩ := hok
+  have hh : txt.head? ≠ some 32 ∧ txt ≠ [] := by
+    cases hx : sh.head? with
+    | none => rw [hx] at hhead; simp at hhead
+    | some x =>
+      rw [hx] at hhead
+      simp only [Bool.and_eq_true, Bool.not_eq_true'] at hhead
+      obtain ⟨c0, hc0, hin0⟩ := hasShape_head hs hx
+      refine ⟨?_, ?_⟩
+      · rw [hc0]; intro e; cases e; rw [hhead.1] at hin0; cases hin0
+      · intro e; rw [e] at hc0; cases hc0
+  have hl : txt.getLast? ≠ some 32 := by
+    cases hy : sh.getLast? with
+    | none => rw [hy] at hlast; simp at hlast
+    | some y =>
+      rw [hy] at hlast
+      simp only [Bool.not_eq_true'] at hlast
+      obtain ⟨c1, hc1, hin1⟩ := hasShape_last hs hy
+      rw [hc1]; intro e; cases e; rw [hlast] at hin1; cases hin1
+  exact ⟨_, txt, c, j', hck, ht, hc, hj, by rw [parseLql_padded gcfg lql_trims_blanks lqlFmts now a b txt hh.2 hl hh.1]; exact hp⟩
 
 /-- unit and number text of a relative answer -/
 def relHead : LqlRes → Option (UInt8 × Bytes)
